@@ -197,6 +197,13 @@ def judge_c03(ws, cost, w, edits, acc, order):
                              short(expect, 1500), f"{e}; {dec!r}"[:1500], order))
         return
     if not bridge.same_wire(got, expect):
+        # what the encoding CARRIES decides: a tagged float64 at -0.0 equals its default 0.0 and is elided by every
+        # conforming encoder, so the wire holds the default (the reference decoder reads the same bytes)
+        carried = refcodec.decode(ws, refcodec.Src(ref), bridge.wire_default)
+        if not bridge.same_wire(carried, expect, zero_sign=False):
+            raise HarnessError(f"KRef.decode(KRef.encode(w)) != w for {ws.path}: {short(w)}")
+        expect = carried
+    if not bridge.same_wire(got, expect):
         acc.report(violation("C03", xk, f"C03/{xk}/wrong-value/{wire_diff(ws, expect, got)}", ws.path,
                              case, short(expect, 1500), short(got, 1500), order))
         return
@@ -298,10 +305,10 @@ def _task(arg):
     ws = wire_schema(cls)
     acc = Acc()
     k, own_k = cfg["k"], cfg["own_k"]
-    probe = values.Explorer(ws, k, mode, cfg.get("max_len", 32767))
+    probe = values.Explorer(ws, k, mode, cfg.get("max_len", 32767), long_arrays=True)
     if cfg["k3_slots"] and probe.slots <= cfg["k3_slots"]:
         k = 3
-    ex = values.Explorer(ws, k, mode, cfg.get("max_len", 32767), own_k=own_k, cap=cfg["cap"])
+    ex = values.Explorer(ws, k, mode, cfg.get("max_len", 32767), own_k=own_k, cap=cfg["cap"], long_arrays=True)
     seen = set()
     for cost, w, edits in ex:
         h = hash(values.freeze(w))
@@ -361,7 +368,9 @@ def run_generic(prop, tier, level="model_checking", extra=None):
 
 
 def run_c01(tier):
-    return run_generic("C01", tier)
+    from . import codec_rows
+
+    return run_generic("C01", tier, extra=lambda run: codec_rows.sweep(run, tier, "C01"))
 
 
 def run_c02(tier):
@@ -371,11 +380,15 @@ def run_c02(tier):
 
 
 def run_c03(tier):
-    return run_generic("C03", tier)
+    from . import codec_rows
+
+    return run_generic("C03", tier, extra=lambda run: codec_rows.sweep(run, tier, "C03"))
 
 
 def run_c05(tier):
-    return run_generic("C05", tier)
+    from . import codec_rows
+
+    return run_generic("C05", tier, extra=lambda run: codec_rows.sweep(run, tier, "C05"))
 
 
 def replay(prop, path):
